@@ -220,6 +220,8 @@ func errClass(err error) int64 {
 		return 3
 	case strings.Contains(s, "unexpected packet size"), strings.Contains(s, "unexpected source"):
 		return 4
+	case strings.Contains(s, "unexpected system clock behavior"):
+		return 5
 	}
 	return 9
 }
